@@ -7,6 +7,9 @@ import (
 	"encoding/json"
 	"errors"
 	"fmt"
+	"io"
+	"net/http"
+	"net/http/httptest"
 	"os"
 	"runtime"
 	"sync"
@@ -41,10 +44,16 @@ type Plan struct {
 	Procs      int        `json:"procs"`
 	SharedCtx  bool       `json:"shared_values"` // render the same component *values* (created once) from all goroutines
 	EmptyPools bool       `json:"empty_pools"`   // two garbage collections first, so that templ's buffer pools start empty
+	// Middleware: every render is one request through a single templ.NewCSSMiddleware shared by all
+	// goroutines (it prepares each request's context); the registered class is one no fixture uses,
+	// so the documents are the same as without it.
+	Middleware bool `json:"middleware,omitempty"`
 }
 
+type renderJobKey struct{}
+
 var rec = ev.New("C14", "c14.concurrent",
-	"plans of 2..16 goroutines x 1..6 renders over a table of compiled fixture components (text/attribute sinks with control flow, script elements with Go values, css components, script templates, once handles, wrapper components with child blocks, JSON script), each render with its own context and writer (fast, yielding every w bytes, chunked, failing at byte k, or the goroutine's own long-lived bufio.Writer), GOMAXPROCS 1, 2 or 16, component values created per render or shared by all goroutines; the test binary is built with -race. "+
+	"plans of 2..16 goroutines x 1..6 renders over a table of compiled fixture components (text/attribute sinks with control flow, script elements with Go values, css components, script templates, once handles, wrapper components with child blocks, JSON script), each render with its own context and writer (fast, yielding every w bytes, chunked, failing at byte k, or the goroutine's own long-lived bufio.Writer), GOMAXPROCS 1, 2 or 16, component values created per render or shared by all goroutines, in a quarter of the plans every render being a request through one shared templ.NewCSSMiddleware; the test binary is built with -race. "+
 		"Oracle: no data race report (the race detector fails the process), every successful render equals the sequential reference of that component byte for byte, every failed one is a prefix of it and returns the writer's error. "+
 		"Non-trivial = >=2 goroutines render the same component with at least one failing writer among them; distinct by plan. Schedules are sampled by the Go scheduler, not enumerated")
 
@@ -142,6 +151,19 @@ func decide(p Plan) error {
 	for i, c := range table {
 		shared[i] = c.mk()
 	}
+	render := func(c templ.Component, w io.Writer) error { return c.Render(context.Background(), w) }
+	if p.Middleware {
+		next := http.HandlerFunc(func(_ http.ResponseWriter, r *http.Request) {
+			r.Context().Value(renderJobKey{}).(func(context.Context))(r.Context())
+		})
+		mw := templ.NewCSSMiddleware(next, fx.ECSS(2, 999))
+		render = func(c templ.Component, w io.Writer) (err error) {
+			job := func(ctx context.Context) { err = c.Render(ctx, w) }
+			req := httptest.NewRequest("GET", "/page", nil)
+			mw.ServeHTTP(httptest.NewRecorder(), req.WithContext(context.WithValue(req.Context(), renderJobKey{}, job)))
+			return err
+		}
+	}
 	errs := make([]error, len(p.Goroutines))
 	var wg sync.WaitGroup
 	start := make(chan struct{})
@@ -166,7 +188,7 @@ func decide(p Plan) error {
 				name := table[r.Comp%len(table)].name
 				if r.Bufio {
 					before := sink.Len()
-					err := c.Render(context.Background(), bw)
+					err := render(c, bw)
 					if err == nil {
 						err = bw.Flush()
 					}
@@ -181,7 +203,7 @@ func decide(p Plan) error {
 					continue
 				}
 				w := &planWriter{r: r}
-				err := c.Render(context.Background(), w)
+				err := render(c, w)
 				switch {
 				case r.FailAt >= 0 && r.FailAt < len(want):
 					if err == nil || !errors.Is(err, errW) {
@@ -286,6 +308,7 @@ func TestPropConcurrent(t *testing.T) {
 			Procs:      rapid.SampledFrom([]int{1, 2, 16, 16}).Draw(t, "procs"),
 			SharedCtx:  rapid.Bool().Draw(t, "sharedValues"),
 			EmptyPools: rapid.Bool().Draw(t, "emptyPools"),
+			Middleware: rapid.IntRange(0, 3).Draw(t, "middleware") == 0,
 		}
 		rec.Eval(1)
 		if nontrivial(p) {
